@@ -14,8 +14,8 @@ CLAIMED = {
         design="§4 C09, §3 E6"),
     "C10": dict(
         level="other",
-        text="Decided structurally: INVALID = 0, EOF = 1; the symbol table registers INVALID and the end marker first, Add numbers unseen ids consecutively and never renumbers, terminals are listed in that order, NewTokenMap fills both directions together (R10.2); main registers token ids before listing terminals and hands the one TokenMap to all three generators (R10.3); lexer Accept = IdMap[id], parser columns = indices of TypeMap, Scan stores Accept into tok.Type, Parse indexes rows by the look-ahead's Type (R10.4); idMap entry i = %q of typeMap entry i with value i, and both templates print them in string-safe form (R10.5); generated Type/Id lookups (R10.6).",
-        note="Assumes %q (strconv.Quote) is injective. Trusted: go/ssa, checker/sx.go, checker/splice.go.",
+        text="Decided structurally: INVALID = 0, EOF = 1; the symbol table registers INVALID and the end marker first, Add numbers unseen ids consecutively and never renumbers, terminals are listed in that order, NewTokenMap fills both directions together (R10.2); main registers token ids before listing terminals and hands the one TokenMap to all three generators (R10.3); lexer Accept = IdMap[id], parser columns = indices of TypeMap, Scan stores Accept into tok.Type, Parse indexes rows by the look-ahead's Type (R10.4); idMap entry i = %q of typeMap entry i with value i, and both templates print them in string-safe form (R10.5); generated Type/Id lookups (R10.6). One string names one symbol (R10.7): every production name is registered before any string literal is compared with them, literals spelled INVALID or like the end marker and a production named INVALID are refused (found D28).",
+        note="Open known finding D33 (a string literal spelled error or empty is the reserved symbol of that spelling; printed as KNOWN-FINDING, DESIGN §5). Assumes %q (strconv.Quote) is injective. Trusted: go/ssa, checker/sx.go, checker/splice.go.",
         technique="static analysis: event-order / transfer tables by abstract interpretation + SSA value identity and dominance in main + splice classes",
         design="§4 C10"),
     "C11": dict(
@@ -26,19 +26,19 @@ CLAIMED = {
         design="§4 C11, §3 E5"),
     "C12": dict(
         level="other",
-        text="Decided structurally for all grammars: the debug instantiations of lexer.go/parser.go equal the plain ones up to inserted print statements with effect-free operands (statement-level diff of the instantiated templates, R12.1); -zip: gob payload types are identical on both sides, encoder arm -> code and decoder code -> constructor compose to the plain writer's cells, canRecover and every goto cell are copied over exactly the table dimensions, both writers read the same sources (R12.2); the flag getters are confined to selecting the writer / the Debug field / skipping the lexer generator / adding diagnostics (R12.3). So the flags cannot change the recognised language, reductions, results, errors or positions.",
-        note="NOT decided: gob/gzip round-trip fidelity (stdlib). Trusted: go/parser+go/printer statement comparison, go/ssa, checker/sx.go.",
+        text="Decided structurally for all grammars: the debug instantiations of lexer.go/parser.go equal the plain ones up to inserted print statements with effect-free operands (statement-level diff of the instantiated templates, R12.1); -zip: gob payload types are identical on both sides, encoder arm -> code and decoder code -> constructor compose to the plain writer's cells, canRecover and every goto cell are copied over exactly the table dimensions, both writers read the same sources (R12.2); the flag getters are confined to selecting the writer / the Debug field / skipping the lexer generator / adding diagnostics (R12.3). So the flags cannot change the recognised language, reductions, results, errors or positions. With -zip the tables are the values of their own initialisers, complete before any init function (R12.6, found D34).",
+        note="Open known finding D35 (the -zip files import bytes, gzip, gob into package parser, where the file header lives; R12.7). NOT decided: gob/gzip round-trip fidelity (stdlib). Trusted: go/parser+go/printer statement comparison, go/ssa, checker/sx.go.",
         technique="static analysis: AST diff of template instantiations + writer/reader agreement tables by abstract interpretation + use-site enumeration of flag getters",
         design="§4 C12"),
     "C13": dict(
         level="other",
-        text="Thin, structural: layout and spelling have no channel into the output except the sequence of (type, text) pairs: the front-end token has no position field and no ast type holds a position (R13.1); a character literal's raw spelling is never read, consumers use the decoded value or the rendering computed from it (R13.2); decoding follows Go's escape table (R13.3); a string literal's content is its text without first and last byte whatever the quote (R13.4).",
+        text="Thin, structural: layout and spelling have no channel into the output except the sequence of (type, text) pairs: the front-end token has no position field and no ast type holds a position (R13.1); a character literal's raw spelling is never read, consumers use the decoded value or the rendering computed from it (R13.2); decoding follows Go's escape table (R13.3); a string literal's content is its text without first and last byte whatever the quote (R13.4). Where comments end, against the documented comment syntax (R13.4); what is white space (R13.5).",
         note="NOT decided: the hand-written scanner's loops (white space, comments, where literals end) — the reason this claim is thin. Trusted: go/types, go/ssa, checker/sx.go.",
         technique="static analysis: type-level reachability + field read-set + decision tables by abstract interpretation",
         design="§4 C13"),
     "C14": dict(
         level="other",
-        text="Partial, structural: no detected problem is swallowed. Error recovery of the front end is inert (R14.1); the scanner's error count and the parse error each lead to a non-zero exit on a branch that dominates every generator call (R14.2, R14.3); NewGrammar returns the consistency verdict, empty alternatives, undefined production names, duplicate definitions and unknown ids are errors or panics (R14.4); undefined regular-definition references are rejected before generation (R14.5).",
+        text="Partial, structural: no detected problem is swallowed. Error recovery of the front end is inert (R14.1); the scanner's error count and the parse error each lead to a non-zero exit on a branch that dominates every generator call (R14.2, R14.3); NewGrammar returns the consistency verdict, empty alternatives, undefined production names, duplicate definitions and unknown ids are errors or panics (R14.4); undefined regular-definition references are rejected before generation (R14.5). The reserved words empty and error are refused out of place (R14.6, found D30); undefined production names with any capital first letter (R14.4, D31); identifiers: '!' only in front of an ignored token id (R14.7, D32).",
         note="NOT decided: that the token-level language is exactly the documented one (that is C15) and the scanner's classification of every byte sequence. Trusted: go/ssa, checker/sx.go, control dependence via post-dominators.",
         technique="static analysis: control-dependence/dominance of exit guards on SSA + decision tables by abstract interpretation",
         design="§4 C14"),
@@ -68,7 +68,7 @@ CLAIMED = {
         design="§4 C08, Appendix A.1"),
     "C16": dict(
         level="other",
-        text="State re-initialisation decided structurally on the generated code: the set of Lexer fields Scan can store to must be restored by Reset to NewLexer's constants; Parse's prologue must be Reset, Scan, store nextToken before the loop; Reset = stack.reset + push(0,nil); stack.reset truncates every stack field; every other Parser field is Context (never written) or never read. So each Parse / each scan after Reset starts from a fresh object's state regardless of history.",
+        text="State re-initialisation decided structurally on the generated code: the set of Lexer fields Scan can store to must be restored by Reset to NewLexer's constants; Parse's prologue must be Reset, Scan, store nextToken before the loop; Reset = stack.reset + push(0,nil); stack.reset truncates every stack field; every other Parser field is Context (never written) or never read. So each Parse / each scan after Reset starts from a fresh object's state regardless of history. The slice popN hands to an action is freshly allocated (R16.4, found D27).",
         note="popN's slice aliasing by user actions is outside the generated code and not decided. Trusted: go/ssa, checker/sx.go.",
         technique="static analysis: field store/load sets and prologue event order on the SSA of the instantiated templates",
         design="§4 C16"),
@@ -86,38 +86,38 @@ CLAIMED = {
         design="§4 C01, Appendix A.1"),
     "C02": dict(
         level="other",
-        text="Partial, structural: decides the loop-free decisions between the LR(1) item sets and the running parser, for every combination of their abstract inputs: Item.action = Dragon-book Alg. 4.56 + INVALID column (R02.1); body length assumed by the automaton = NumSymbols popped by the parser (R02.2); every table writer renders each action kind into the right constructor and column, goto cells follow NTType's index (R02.3); the generated Parse loop, in all four debug/zip variants, is the LR driver (R02.4); augmentation and initial item (R02.5); every step of FIRST, closure, goto and the LR(1) collection is the textbook step (R02.6, R02.7) and the set operations that drive the iterations report membership/growth/equality truthfully, item identity covers everything Item.action reads (R02.8). These are necessary conditions of the property: breaking any of them breaks acceptance for some grammar.",
-        note="NOT decided: convergence of the FIRST/closure/GetItemSets iterations to the least fixed point (each step is decided, the limit is not), and that Parse terminates. Trusted: go/ssa, checker/sx.go, the generated model.",
+        text="Partial, structural: decides the loop-free decisions between the LR(1) item sets and the running parser, for every combination of their abstract inputs: Item.action = Dragon-book Alg. 4.56 + INVALID column (R02.1); body length assumed by the automaton = NumSymbols popped by the parser (R02.2); every table writer renders each action kind into the right constructor and column, goto cells follow NTType's index (R02.3); the generated Parse loop, in all four debug/zip variants, is the LR driver (R02.4); augmentation and initial item (R02.5); every step of FIRST, closure, goto and the LR(1) collection is the textbook step (R02.6, R02.7) and the set operations that drive the iterations report membership/growth/equality truthfully, item identity covers everything Item.action reads (R02.8). These are necessary conditions of the property: breaking any of them breaks acceptance for some grammar. One string names one symbol: literals spelled like a reserved symbol or like any production are refused (R02.9 = R10.7); the item key is an injective rendering of (production, dot, look-ahead) (R02.8).",
+        note="Open known finding D33 (a string literal spelled error or empty is the reserved symbol of that spelling; printed as KNOWN-FINDING, DESIGN §5). NOT decided: convergence of the FIRST/closure/GetItemSets iterations to the least fixed point (each step is decided, the limit is not), and that Parse terminates. Trusted: go/ssa, checker/sx.go, the generated model.",
         technique="static analysis: decision/transfer-table extraction by finite-world abstract interpretation of SSA (repo code and instantiated templates)",
         design="§4 C02, Appendix A.2"),
     "C03": dict(
         level="other",
-        text="Partial, structural: what gives semantic actions their meaning is decided for all grammars: the synthesised reduce function (user text / nil,nil for empty / X[0]) and NumSymbols (R03.1), the $n/$Tn/$Context rewriting incl. the pattern's language on probes (R03.2), and in the generated Parse (all variants) that a shift pushes the scanner's token object, a reduce pops NumSymbols attributes and calls the action with them and p.Context, an action error returns immediately wrapped by newError, accept returns the last attribute (R03.3).",
-        note="NOT decided: post-order of reductions (follows from LR parsing given C02). Trusted: go/ssa, checker/sx.go, Go's regexp on the constant pattern.",
+        text="Partial, structural: what gives semantic actions their meaning is decided for all grammars: the synthesised reduce function (user text / nil,nil for empty / X[0]) and NumSymbols (R03.1), the $n/$Tn/$Context rewriting incl. the pattern's language on probes (R03.2), and in the generated Parse (all variants) that a shift pushes the scanner's token object, a reduce pops NumSymbols attributes and calls the action with them and p.Context, an action error returns immediately wrapped by newError, accept returns the last attribute (R03.3). R03.9 = R10.7 (symbol namespace).",
+        note="Open known finding D33 (a string literal spelled error or empty is the reserved symbol of that spelling; printed as KNOWN-FINDING, DESIGN §5). NOT decided: post-order of reductions (follows from LR parsing given C02). Trusted: go/ssa, checker/sx.go, Go's regexp on the constant pattern.",
         technique="static analysis: decision-table extraction (abstract interpretation of SSA) + event-order tables of the instantiated parser template",
         design="§4 C03"),
     "C04": dict(
         level="other",
-        text="The whole reporting chain is decided row by row: the per-state fold records a conflict iff two non-error actions differ (R04.1); both table writers and the plumbing to main preserve exactly the non-empty conflict sets (R04.2); handleConflicts' exit policy incl. accept-conflicts panicking in both modes (R04.3); every os.Exit has a non-zero constant and nothing recovers panics, so status zero means main returned (R04.4); the steps that build the item sets (R04.5 = R02.6-R02.8); the identity under which items are merged depends on every constructor input Item.action depends on (R04.6; found D21).",
-        note="NOT decided: convergence of the item-set iterations (C02). Trusted: go/ssa, checker/sx.go.",
+        text="The whole reporting chain is decided row by row: the per-state fold records a conflict iff two non-error actions differ (R04.1); both table writers and the plumbing to main preserve exactly the non-empty conflict sets (R04.2); handleConflicts' exit policy incl. accept-conflicts panicking in both modes (R04.3); every os.Exit has a non-zero constant and nothing recovers panics, so status zero means main returned (R04.4); the steps that build the item sets (R04.5 = R02.6-R02.8); the identity under which items are merged depends on every constructor input Item.action depends on (R04.6; found D21). The item key is injective (R04.7, found D29); R04.8 = R10.7 (symbol namespace).",
+        note="Open known finding D33 (a string literal spelled error or empty is the reserved symbol of that spelling; printed as KNOWN-FINDING, DESIGN §5). NOT decided: convergence of the item-set iterations (C02). Trusted: go/ssa, checker/sx.go.",
         technique="static analysis: finite-world abstract interpretation of SSA regions + call-site enumeration",
         design="§4 C04"),
     "C06": dict(
         level="other",
-        text="Partial, structural: given a canonical table, the error is exact because (a) reduce entries exist only on the item's exact follow symbol and error cells are nil (Item.action table, cell writers), (b) Parse goes to Error on an empty cell before any reduce, restores the offending token and returns newError, (c) newError carries that token, the top state and exactly the token names with a non-nil cell in index order (all variants), (d) the error type has the stated fields, (e) the look-ahead computation steps (R06.0e = R02.6-R02.8).",
-        note="NOT decided: that rows hold exactly the viable terminals (canonical LR(1) construction, C02). Trusted: go/ssa, checker/sx.go.",
+        text="Partial, structural: given a canonical table, the error is exact because (a) reduce entries exist only on the item's exact follow symbol and error cells are nil (Item.action table, cell writers), (b) Parse goes to Error on an empty cell before any reduce, restores the offending token and returns newError, (c) newError carries that token, the top state and exactly the token names with a non-nil cell in index order (all variants), (d) the error type has the stated fields, (e) the look-ahead computation steps (R06.0e = R02.6-R02.8). R06.3 = R10.7 (symbol namespace).",
+        note="Open known finding D33 (a string literal spelled error or empty is the reserved symbol of that spelling; printed as KNOWN-FINDING, DESIGN §5). NOT decided: that rows hold exactly the viable terminals (canonical LR(1) construction, C02). Trusted: go/ssa, checker/sx.go.",
         technique="static analysis: decision-table extraction + loop-body transfer tables of the instantiated parser template",
         design="§4 C06"),
     "C07": dict(
         level="other",
-        text="Partial, structural: recovery-state flag = 'an item can shift the error symbol' and its emission (R07.1), one spelling of the error symbol (R07.2), and the generated recovery procedure region by region in every world: firstRecoveryState, popNonRecoveryStates, Error (attribute built from the current token and discarded attributes before skipping; shift of error only if the row has an entry; skip loop discards tokens until one is acceptable or input ends), Parse re-dispatching on the resume token (R07.3/4), all four variants.",
-        note="Error gives up (no panic) when the error column of the state on top holds no shift (found D24). NOT decided: never loops, panic-freedom outside Error, inertness on valid input (needs C02), token conservation across several recoveries. Trusted: go/ssa, checker/sx.go.",
+        text="Partial, structural: recovery-state flag = 'an item can shift the error symbol' and its emission (R07.1), one spelling of the error symbol (R07.2), and the generated recovery procedure region by region in every world: firstRecoveryState, popNonRecoveryStates, Error (attribute built from the current token and discarded attributes before skipping; shift of error only if the row has an entry; skip loop discards tokens until one is acceptable or input ends), Parse re-dispatching on the resume token (R07.3/4), all four variants. R07.5 = R10.7 (symbol namespace).",
+        note="Open known finding D33 (a string literal spelled error or empty is the reserved symbol of that spelling; printed as KNOWN-FINDING, DESIGN §5). Error gives up (no panic) when the error column of the state on top holds no shift (found D24). NOT decided: never loops, panic-freedom outside Error, inertness on valid input (needs C02), token conservation across several recoveries. Trusted: go/ssa, checker/sx.go.",
         technique="static analysis: region transfer tables by finite-world abstract interpretation of the instantiated parser template",
         design="§4 C07"),
     "C19": dict(
         level="other",
-        text="Partial, structural: the .md dispatch (only names ending in .md go through md.GetSource, whose result is the one buffer the scanner gets) and the store discipline of loadMd in every world (prose/code x fence/partial fence/plain rune incl. every rune value the code compares with x newline x end of buffer): only spaces are written, never over a newline, only in prose or on a fence; a fence toggles the mode; the buffer is never resized and is what GetSource returns. Hence lines and rune columns are preserved and code is untouched.",
-        note="NOT decided: exact fence recognition for every text (e.g. a fence right after a closing fence). Trusted: go/ssa, checker/sx.go.",
+        text="Partial, structural: the .md dispatch (only names ending in .md go through md.GetSource, whose result is the one buffer the scanner gets) and the store discipline of loadMd in every world (prose/code x fence/partial fence/plain rune incl. every rune value the code compares with x newline x end of buffer): only spaces are written, never over a newline, only in prose or on a fence; a fence toggles the mode; the buffer is never resized and is what GetSource returns. Hence lines and rune columns are preserved and code is untouched. Bytes that are not UTF-8 survive in code sections so that the scanner refuses them as in a .bnf file (R19.3, found D38); only next() sets the line (R19.4, found D37).",
+        note="Open known finding D36 (prose is blanked, not removed: a token that spans the gap between two code blocks takes the blanks in; R19.5). NOT decided: exact fence recognition for every text (e.g. a fence right after a closing fence). Trusted: go/ssa, checker/sx.go.",
         technique="static analysis: loop-body transfer table by finite-world abstract interpretation of SSA",
         design="§4 C19"),
     "C20": dict(
